@@ -513,6 +513,8 @@ impl Python {
                         indent = indent,
                         indented_comments = comments
                             .iter()
+                            // Doc text must not be able to close the docstring it is written into.
+                            .map(|v| v.replace('\\', "\\\\").replace("\"\"\"", "\\\"\\\"\\\""))
                             .map(|v| format!("{}{}", indent, v))
                             .collect::<Vec<String>>()
                             .join("\n"),
